@@ -16,13 +16,15 @@ Funcs == ndJsonDeserialize(FuncFile)        \* [name, min, max, exp]
 (* variables the harness binds to a non-ASCII string, a two-item collection, a complex element and a resource.       *)
 Pool == <<"0", "1", "(-1)", "2", "2147483647", "(-2147483647 - 1)", "46341", "309", "2001", "0.0", "1.5", "(-0.5)", "(-10.0)", "(-1.5)", "0.5",
           "1000000000000000000000000000000.0", "0.000000000000000000000000000001", "12345678901234567890.123456789",
+          "9999999999999999999999999999999999999999999999999999999999999999999999999999999999999999999999999999999999999999999999999999999999999999999999999999999999999999999999999999999999999999999999999999999999999999999999999999999999999999999999999999999999999999999999999999999999999999999999999999999999999999999999999999999999999999999999999999999999999999999999999999999999999999999999999999999999999999.0", "0.0000000000000000000000000000000000000000000000000000000000000000000000000000000000000000000000000000000000000000000000000000000000000000000000000000000000000000000000000000000000000000000000000000000000000000000000000000000000000000000000000000000000000000000000000000000000000000000000000000000000000000000000000000000000000000000000000000000000000000000000000000000000000000000000000000000000000001",         \* beyond float64 in both directions (400 digits)
           "true", "false", "''", "'abc'", "%nonascii", "'1'", "'2020-01-01'", "'1 mg'",
           "@2020", "@2020-02", "@2020-02-29", "@9999-12-31", "@0001-01-01", "@2020T", "@2020-02-29T23:59:59.999+14:00",
           "@2020-02-29T00:00:00-12:00", "@2020-02-29T10", "@T00", "@T23:59:59.999", "@T12:30",
           "1 'mg'", "1 year", "(-5 days)", "0 'mg'", "1000000 years",
           "{}", "%multi", "%cx", "%node", "Patient.name", "Patient.birthDate", "Patient.active", "Patient.telecom.rank", "Patient.photo">>
-ArgsA == <<"0", "1", "(-1)", "309", "2001", "2147483647", "(-2147483647 - 1)", "1.5", "0.0", "true", "''", "'abc'", "%nonascii", "@2020", "@T12:30", "1 'mg'", "{}", "%multi", "%cx">>
-ArgsB == <<"0", "1", "2", "(-1)", "2147483647", "(-2147483647 - 1)", "''", "'abc'", "{}", "%multi", "1.5">>
+(* '(' and '[a-' are not regular expressions *)
+ArgsA == <<"0", "1", "(-1)", "309", "2001", "2147483647", "(-2147483647 - 1)", "1.5", "0.0", "true", "''", "'abc'", "%nonascii", "@2020", "@T12:30", "1 'mg'", "{}", "%multi", "%cx", "'('", "'[a-'">>
+ArgsB == <<"0", "1", "2", "(-1)", "2147483647", "(-2147483647 - 1)", "''", "'abc'", "{}", "%multi", "1.5", "'('">>
 ArgsC == <<"true", "{}", "1", "%multi">>
 
 BinOps == <<"+", "-", "*", "/", "div", "mod", "&", "=", "!=", "<", "<=", ">", ">=", "and", "or", "xor", "implies", "~", "!~", "|", "in", "contains">>
@@ -30,7 +32,9 @@ TypeNames == <<"Integer", "string", "System.Quantity", "FHIR.Patient", "Backbone
 
 (* lexical fragments for source strings *)
 Tokens == <<"1", "'a'", "x", "Patient", ".", "(", ")", "[", "]", "+", "-", "*", "/", "and", "is", "=", "~", "|", ",", "{", "}",
-            "@2020", "@T10", "%v", "$this", "1 'mg'", "where", "`", "'", "\\", "/*", "//", "..", "1.", "@", "%">>
+            "@2020", "@T10", "%v", "$this", "1 'mg'", "where", "`", "'", "\\", "/*", "//", "..", "1.", "@", "%",
+            \* escapes, complete and cut short
+            "'\\u12a'", "'\\u0041'", "'\\u'", "'\\u1'", "'\\x'", "'abc\\", "1 '\\u12a'", "'\\ud800'", "`\\u12`">>
 TokensSmall == <<"1", "'a'", "x", ".", "(", ")", "[", "]", "-", "and", "=", "|", "{", "}", "@T", "'">>
 
 (* patch matrix *)
@@ -38,9 +42,12 @@ PatchOps == <<"add", "insert", "delete", "replace", "move">>
 PatchPaths == <<"Patient.name", "Patient.name[0]", "Patient.name[0].given", "Patient.name[0].given[1]", "Patient.active", "Patient.deceased",
                 "Patient.photo", "Patient.zz", "Patient.name.where(use = 'official')", "Patient.name.first()", "1 +", "Patient.gender",
                 "Patient.generalPractitioner[0]", "Patient.contained[0]", "", "Patient", "Patient.name.given.count()", "Patient.telecom[1].rank",
-                "Patient.extension('http://example.org/ext/a')", "Patient.birthDate.extension">>
-PatchValues == <<"HumanName", "String", "Boolean", "Patient", "nil", "Code", "Integer", "PositiveInt", "Reference", "Extension">>
-PatchNames == <<"given", "zz", "Given", "", "name", "family", "extension">>
+                "Patient.extension('http://example.org/ext/a')", "Patient.birthDate.extension",
+                \* children of date-like primitives (their value lives in value_us/timezone/precision), of a false Boolean
+                "Patient.birthDate", "Patient.birthDate.id", "Patient.meta.lastUpdated", "Patient.meta.lastUpdated.extension",
+                "Patient.birthDate.extension.value", "Patient.address.period.start", "Patient.name[0].family", "Patient.communication[0].preferred">>
+PatchValues == <<"HumanName", "String", "Boolean", "Patient", "nil", "Code", "Integer", "PositiveInt", "Reference", "Extension", "Date", "DateTime">>
+PatchNames == <<"given", "zz", "Given", "", "name", "family", "extension", "value", "id", "valueUs", "timezone", "precision">>
 PatchIndexes == <<-1, 0, 1, 99>>
 
 GenericPrograms == <<"children()", "descendants()", "descendants().count()", "children().count()", "descendants().exists()",
@@ -53,6 +60,15 @@ GenericPrograms == <<"children()", "descendants()", "descendants().count()", "ch
    "descendants().exp()", "descendants().round()", "descendants().not()", "descendants().select($this + 1)", "descendants().select($this & 'x')",
    "descendants().select($this = $this)", "descendants().select($this < $this)", "descendants().as(string)", "descendants().extension('http://example.org/ext/a')",
    "id", "meta.lastUpdated", "contained", "text.`div`">>
+
+(* "every collection of R4 resources and every supported set of evaluate options": the programs below are evaluated on   *)
+(* every input form with every option set (the harness builds both from these names)                                      *)
+InputForms == <<"one", "none", "nilslice", "two", "same-twice", "nil-element", "typed-nil-element", "nil-then-one", "bundle">>
+OptionSets == <<"none", "time-year-10000", "time-year-0", "time-year-minus-1", "time-9999-end", "time-zone+14", "time-zone-seconds",
+                "time-zero-value", "var-nil-collection", "var-empty-name", "var-twice", "var-nil-value", "var-typed-nil-element", "var-nested-collection">>
+OptionPrograms == <<"now()", "today()", "timeOfDay()", "now() + 1 year", "today() - 1 day", "now().toString()", "today().toString().toDate()",
+                    "now() > today()", "timeOfDay() + 1 hour", "Patient.birthDate < today()", "Patient.name.given", "%x", "%x.count()",
+                    "Patient.name.where(given.count() > %x.count())", "descendants().count()", "%context", "%context.name", "Bundle.entry.resource.id">>
 
 (* The only outcomes a call may have. *)
 Returned == {"ok", "err", "cerr"}
